@@ -255,7 +255,7 @@ func runC13(w *world.World, c caseC13, rec *kit.Recorder) error {
 						rec.Exclude("reverse key walk over a listing with prefix-related terminal key components (known finding C13-reverse-prefix)")
 						continue
 					}
-					walk, err := walkPages(kind.list, pr.Limit, pr.Reverse, kind.want)
+					walk, err := walkPages(kind.list, pr.Limit, pr.Reverse, kind.want, pr.CountTotal)
 					if err != nil {
 						return fmt.Errorf("%s, limit %d reverse %v: %w", what, pr.Limit, pr.Reverse, err)
 					}
@@ -354,14 +354,20 @@ func bucket(n int) int {
 
 // walkPages follows next_key until it is empty and checks that the walk visits exactly the
 // wanted set, each entry once, with equal values.
-func walkPages(list func(*query.PageRequest) ([]string, []string, *query.PageResponse, error), limit uint64, reverse bool, want map[string]string) ([]string, error) {
+func walkPages(list func(*query.PageRequest) ([]string, []string, *query.PageResponse, error), limit uint64, reverse bool, want map[string]string, countTotal ...bool) ([]string, error) {
+	ct := len(countTotal) > 0 && countTotal[0]
 	var key []byte
 	var all []string
 	seen := map[string]bool{}
 	for page := 0; ; page++ {
-		ks, vs, pr, err := list(&query.PageRequest{Key: key, Limit: limit, Reverse: reverse})
+		ks, vs, pr, err := list(&query.PageRequest{Key: key, Limit: limit, Reverse: reverse, CountTotal: ct})
 		if err != nil {
 			return nil, fmt.Errorf("page %d: %v", page, err)
+		}
+		// a total asked for while following keys: the paginator may leave it out (0), but a number
+		// it does report is the size of the matching set
+		if ct && pr != nil && pr.Total != 0 && pr.Total != uint64(len(want)) {
+			return nil, fmt.Errorf("page %d (key walk with count_total): total %d, matching set has %d entries", page, pr.Total, len(want))
 		}
 		eff := limit
 		if eff == 0 {
